@@ -104,6 +104,26 @@ type Store struct {
 	OnCall func(method string)
 }
 
+// Content-addressed ids (blobs, trees) are shared by all stores of a process:
+// the same content has the same id in every store, as in git.
+var (
+	sharedBlobKey = map[string]string{}
+	sharedTreeKey = map[string]string{}
+	sharedNext    int
+)
+
+func sharedID(kind byte) githash.Hash {
+	sharedNext++
+	h := make([]byte, 20)
+	h[0] = 0xc0
+	h[1] = kind
+	h[16] = byte(sharedNext >> 24)
+	h[17] = byte(sharedNext >> 16)
+	h[18] = byte(sharedNext >> 8)
+	h[19] = byte(sharedNext)
+	return githash.Hash(h)
+}
+
 // epoch distinguishes the stores created in one process, so that the
 // process-wide rsl entry cache (keyed by commit id) never confuses two stores.
 var epoch int
@@ -266,12 +286,15 @@ func (s *Store) WriteBlob(contents []byte) (githash.Hash, error) {
 
 func (s *Store) writeBlob(contents []byte) githash.Hash {
 	k := string(contents)
-	if id, ok := s.blobKey[k]; ok {
+	if id, ok := sharedBlobKey[k]; ok {
+		if _, have := s.blobs[id]; !have {
+			s.blobs[id] = append([]byte(nil), contents...)
+		}
 		return githash.Hash(id)
 	}
-	id := s.newID('b')
+	id := sharedID('b')
 	s.blobs[key(id)] = append([]byte(nil), contents...)
-	s.blobKey[k] = key(id)
+	sharedBlobKey[k] = key(id)
 	return id
 }
 
@@ -299,12 +322,15 @@ func (s *Store) internTree(ents []treeEnt) githash.Hash {
 		sb.WriteString("\n")
 	}
 	k := sb.String()
-	if id, ok := s.treeKey[k]; ok {
+	if id, ok := sharedTreeKey[k]; ok {
+		if _, have := s.trees[id]; !have {
+			s.trees[id] = &tree{id: githash.Hash(id), ents: ents}
+		}
 		return githash.Hash(id)
 	}
-	id := s.newID('t')
+	id := sharedID('t')
 	s.trees[key(id)] = &tree{id: id, ents: ents}
-	s.treeKey[k] = key(id)
+	sharedTreeKey[k] = key(id)
 	return id
 }
 
@@ -947,6 +973,99 @@ func (s *Store) TreeDigest(treeID githash.Hash) string {
 	}
 	return sb.String()
 }
+
+// TreeEntries returns the immediate entries of a tree (nil, false if absent).
+func (s *Store) TreeEntries(id githash.Hash) ([]gitstore.TreeEntry, bool) {
+	t, ok := s.trees[key(id)]
+	if !ok {
+		return nil, false
+	}
+	var out []gitstore.TreeEntry
+	for _, e := range t.ents {
+		out = append(out, gitstore.TreeEntry{Path: e.name, ID: clone(e.id), Kind: e.kind})
+	}
+	return out, true
+}
+
+// HasObject reports whether any object with that id exists.
+func (s *Store) HasObject(id githash.Hash) bool {
+	k := key(id)
+	if _, ok := s.commits[k]; ok {
+		return true
+	}
+	if _, ok := s.trees[k]; ok {
+		return true
+	}
+	if _, ok := s.blobs[k]; ok {
+		return true
+	}
+	_, ok := s.tags[k]
+	return ok
+}
+
+// ObjectType returns "commit", "tree", "blob", "tag" or "".
+func (s *Store) ObjectType(id githash.Hash) string {
+	k := key(id)
+	switch {
+	case s.commits[k] != nil:
+		return "commit"
+	case s.trees[k] != nil:
+		return "tree"
+	case s.tags[k] != nil:
+		return "tag"
+	}
+	if _, ok := s.blobs[k]; ok {
+		return "blob"
+	}
+	return ""
+}
+
+// PutBlob stores a blob under a caller-chosen id (used to give two stores the
+// same id for the same content, as content addressing does in git).
+func (s *Store) PutBlob(id githash.Hash, contents []byte) {
+	s.blobs[key(id)] = append([]byte(nil), contents...)
+	sharedBlobKey[string(contents)] = key(id)
+}
+
+// CopyCommitsFrom copies every commit reachable from tip in other (with the
+// trees and blobs they name) into s, keeping the ids: what a fetch does.
+func (s *Store) CopyCommitsFrom(other *Store, tip githash.Hash) {
+	reach := map[string]bool{}
+	other.ancestors(tip, reach)
+	for _, k := range other.order {
+		if !reach[k] {
+			continue
+		}
+		if _, have := s.commits[k]; have {
+			continue
+		}
+		c := other.commits[k]
+		s.commits[k] = &Commit{ID: clone(c.ID), Tree: clone(c.Tree), Parents: c.Parents, Message: c.Message, Signer: c.Signer}
+		s.order = append(s.order, k)
+		s.copyTreeFrom(other, c.Tree)
+	}
+}
+
+func (s *Store) copyTreeFrom(other *Store, id githash.Hash) {
+	if _, have := s.trees[key(id)]; have {
+		return
+	}
+	t, ok := other.trees[key(id)]
+	if !ok {
+		return
+	}
+	s.trees[key(id)] = t
+	for _, e := range t.ents {
+		if e.kind == gitstore.KindSubtree {
+			s.copyTreeFrom(other, e.id)
+		} else if b, ok := other.blobs[key(e.id)]; ok {
+			s.blobs[key(e.id)] = b
+		}
+	}
+}
+
+// MergeBase returns the newest common ancestor of a and b (nil if none).
+func (s *Store) MergeBase(a, b githash.Hash) githash.Hash { return s.mergeBase(a, b) }
 
 // CommitInfo returns the stored commit (nil if absent).
 func (s *Store) CommitInfo(id githash.Hash) *Commit { return s.commits[key(id)] }
